@@ -31,6 +31,8 @@
 #include <opm/input/eclipse/EclipseState/Tables/FlatTable.hpp>
 #include <opm/input/eclipse/EclipseState/Grid/FieldPropsManager.hpp>
 #include <opm/input/eclipse/EclipseState/Grid/EclipseGrid.hpp>
+#include <opm/input/eclipse/EclipseState/Grid/FieldProps.hpp>
+#include <opm/input/eclipse/Schedule/UDQ/UDQEnums.hpp>
 #include <opm/input/eclipse/EclipseState/InitConfig/Equil.hpp>
 #include <opm/input/eclipse/Schedule/Schedule.hpp>
 #include <opm/input/eclipse/Schedule/Well/Well.hpp>
@@ -50,6 +52,8 @@
 #include <limits>
 #include <set>
 #include <sstream>
+#include <sys/wait.h>
+#include <unistd.h>
 
 using namespace Opm;
 namespace fs = std::filesystem;
@@ -103,8 +107,38 @@ std::string dimStr(const Dimension& d) {
     return sc + " " + fbits(d.getSIOffset());
 }
 
-// would UnitSystem::parse index parts[1] of a one-element vector?  (undefined behaviour, never sent)
+// Strings that end in their only '/': UnitSystem::parse throws std::invalid_argument for them since fix
+// ee5075475; before, it indexed parts[1] of a one-element vector (undefined behaviour).  Whether the tree under
+// test refuses them is probed once in a forked child (so that a tree without the guard cannot take the harness
+// down): "" = every probe string threw std::invalid_argument, else what happened instead.
+const std::vector<std::string> TRAILING_SLASH = { "/", "Length/", "Length*Time/", "Foo/", "Pressure/" };
+std::string probeTrailingSlash() {
+    for (const auto& s : TRAILING_SLASH) {
+        std::cout.flush(); std::cerr.flush();
+        const pid_t pid = fork();
+        if (pid < 0) return "fork failed";
+        if (pid == 0) {
+            int rc = 1;
+            try { UnitSystem u(UnitSystem::UnitType::UNIT_TYPE_METRIC); (void) u.parse(s).getSIOffset(); rc = 1; }
+            catch (const std::invalid_argument&) { rc = 0; }
+            catch (const std::exception&) { rc = 2; }
+            catch (...) { rc = 2; }
+            _exit(rc);
+        }
+        int st = 0;
+        if (waitpid(pid, &st, 0) != pid) return "waitpid failed";
+        if (WIFSIGNALED(st)) return "parse(\"" + s + "\") killed the probe process with signal " + std::to_string(WTERMSIG(st));
+        if (!WIFEXITED(st) || WEXITSTATUS(st) != 0)
+            return "parse(\"" + s + "\") " + (WEXITSTATUS(st) == 1 ? "returned a Dimension" : "threw something else than std::invalid_argument") +
+                   " (it reads parts[1] of a one-element vector)";
+    }
+    return "";
+}
+bool g_trailingSlashRefused = false;
+
+// would UnitSystem::parse index parts[1] of a one-element vector?  (undefined behaviour: never sent)
 bool parseWouldBeUB(const std::string& s) {
+    if (g_trailingSlashRefused) return false;
     if (std::count(s.begin(), s.end(), '/') != 1) return false;
     return s.back() == '/';
 }
@@ -211,6 +245,68 @@ std::string randomComposite(vh::Rng& rng, bool allowBad) {
     if (allowBad && rng.coin(1, 12)) s += "*";                           // trailing delimiter (dropped by getline)
     if (allowBad && rng.coin(1, 12)) s = "*" + s;                        // leading delimiter: empty token
     return s;
+}
+
+
+// every UDAControl enumerator under its C++ name
+#define UCTL(x) { #x, UDAControl::x }
+const std::vector<std::pair<std::string, UDAControl>> UDA_CONTROLS = {
+    UCTL(WCONPROD_ORAT), UCTL(WCONPROD_WRAT), UCTL(WCONPROD_GRAT), UCTL(WCONPROD_LRAT), UCTL(WCONPROD_RESV), UCTL(WCONPROD_BHP),
+    UCTL(WCONPROD_THP), UCTL(WCONPROD_LIFT), UCTL(WCONINJE_RATE), UCTL(WCONINJE_RESV), UCTL(WCONINJE_BHP), UCTL(WCONINJE_THP),
+    UCTL(GCONPROD_OIL_TARGET), UCTL(GCONPROD_WATER_TARGET), UCTL(GCONPROD_GAS_TARGET), UCTL(GCONPROD_LIQUID_TARGET),
+    UCTL(GCONINJE_SURFACE_MAX_RATE), UCTL(GCONINJE_RESV_MAX_RATE), UCTL(GCONINJE_TARGET_REINJ_FRACTION),
+    UCTL(GCONINJE_TARGET_VOID_FRACTION), UCTL(WELTARG_ORAT), UCTL(WELTARG_WRAT), UCTL(WELTARG_GRAT), UCTL(WELTARG_LRAT),
+    UCTL(WELTARG_RESV), UCTL(WELTARG_BHP), UCTL(WELTARG_THP), UCTL(WELTARG_LIFT) };
+
+// the deck item a UDA control limits (keyword, item name) — the harness's own knowledge
+const std::vector<std::tuple<std::string, std::string, std::string>> UDA_ITEM = {
+    { "WCONPROD_ORAT", "WCONPROD", "ORAT" }, { "WCONPROD_WRAT", "WCONPROD", "WRAT" }, { "WCONPROD_GRAT", "WCONPROD", "GRAT" },
+    { "WCONPROD_LRAT", "WCONPROD", "LRAT" }, { "WCONPROD_RESV", "WCONPROD", "RESV" }, { "WCONPROD_BHP", "WCONPROD", "BHP" },
+    { "WCONPROD_THP", "WCONPROD", "THP" }, { "WCONPROD_LIFT", "WCONPROD", "ALQ" }, { "WCONINJE_RATE", "WCONINJE", "RATE" },
+    { "WCONINJE_RESV", "WCONINJE", "RESV" }, { "WCONINJE_BHP", "WCONINJE", "BHP" }, { "WCONINJE_THP", "WCONINJE", "THP" },
+    { "GCONPROD_OIL_TARGET", "GCONPROD", "OIL_TARGET" }, { "GCONPROD_WATER_TARGET", "GCONPROD", "WATER_TARGET" },
+    { "GCONPROD_GAS_TARGET", "GCONPROD", "GAS_TARGET" }, { "GCONPROD_LIQUID_TARGET", "GCONPROD", "LIQUID_TARGET" },
+    { "GCONINJE_SURFACE_MAX_RATE", "GCONINJE", "SURFACE_TARGET" }, { "GCONINJE_RESV_MAX_RATE", "GCONINJE", "RESV_TARGET" },
+    { "GCONINJE_TARGET_REINJ_FRACTION", "GCONINJE", "REINJ_TARGET" }, { "GCONINJE_TARGET_VOID_FRACTION", "GCONINJE", "VOIDAGE_TARGET" } };
+
+// FieldProps.hpp: SECTION, keyword, unit string of every double keyword that has one
+std::vector<std::tuple<std::string, std::string, std::string>> fieldPropsUnits() {
+    std::vector<std::tuple<std::string, std::string, std::string>> out;
+    namespace K = Fieldprops::keywords;
+    auto take = [&](const char* sec, const std::unordered_map<std::string, K::keyword_info<double>>& m) {
+        for (const auto& kv : m) if (kv.second.unit) out.emplace_back(sec, kv.first, *kv.second.unit);
+    };
+    take("GRID", K::GRID::double_keywords); take("EDIT", K::EDIT::double_keywords); take("PROPS", K::PROPS::double_keywords);
+    take("SOLUTION", K::SOLUTION::double_keywords); take("SCHEDULE", K::SCHEDULE::double_keywords);
+    std::sort(out.begin(), out.end());
+    return out;
+}
+
+// Findings that have been REPORTED and await the main session's decision: a failure under one of these exact
+// keys is written to pending.txt and counted, not reported as FAIL.  Empty since the round-3 findings were
+// fixed (0d2fae2e6, ee5075475); the one left open (uda_dim.WCONPROD_LIFT) fails until known_findings.txt lists it.
+const std::set<std::string> PENDING = { };
+
+// the harness's own reading of a composite: product of the named factors left of '/', divided by those right of it
+bool ownComposite(const UnitSystem& u, const std::string& s, double& out) {
+    auto prod = [&](const std::string& part, double& p) {
+        p = 1.0;
+        size_t i = 0;
+        while (true) {
+            size_t j = part.find('*', i);
+            const std::string name = part.substr(i, j == std::string::npos ? std::string::npos : j - i);
+            try { const auto& d = u.getDimension(name); if (d.getSIOffset() != 0.0) return false; p *= d.getSIScaling(); }
+            catch (const std::exception&) { return false; }
+            if (j == std::string::npos) return true;
+            i = j + 1;
+        }
+    };
+    const size_t k = s.find('/');
+    double n = 1.0, d = 1.0;
+    if (!prod(s.substr(0, k), n)) return false;
+    if (k != std::string::npos && !prod(s.substr(k + 1), d)) return false;
+    out = n / d;
+    return true;
 }
 
 struct ItemSpec {
@@ -566,6 +662,8 @@ int main(int argc, char** argv) {
 
     std::vector<UnitSystem> systems;
     for (auto t : ALL_TYPES) systems.emplace_back(t);
+    const std::string trailingSlashProbe = probeTrailingSlash();
+    g_trailingSlashRefused = trailingSlashProbe.empty();
 
     if (mode == "corr") {
         vh::Sink sink(outdir);
@@ -654,6 +752,7 @@ int main(int argc, char** argv) {
         strs.insert(strs.end(), { "", "*", "**", "Length*", "*Length", "Length**Time", "/Length", "1/1", "Length/Length/Length",
                                   "Temperature", "Temperature*Length", "Length/Temperature", "ContextDependent", "Pressure*ContextDependent",
                                   "Volume/Time", "Pressure*Time/Volume" });
+        strs.insert(strs.end(), TRAILING_SLASH.begin(), TRAILING_SLASH.end());      // skipped below if the tree does not refuse them
         for (const auto& s : strs) {
             if (parseWouldBeUB(s)) { sink.count("parse.skipped_ub"); continue; }
             for (const auto& u : systems) {
@@ -707,6 +806,61 @@ int main(int argc, char** argv) {
             sink.emit("units.uda " + dimSpec(sp.active) + " " + dimSpec(sp.dflt) + " " + v + " " + std::to_string(i), ans);
             sink.count("uda");
         }
+        // (8) the string overloads to_si/from_si(string, x): keyword strings, FieldProps unit strings, offsets, errors
+        {
+            std::vector<std::string> sstrs = dims;
+            for (const auto& e : fieldPropsUnits()) sstrs.push_back(std::get<2>(e));
+            sstrs.insert(sstrs.end(), { "Temperature", "ContextDependent", "/Length", "", "Temperature*Length", "Length/Temperature", "Foo", "1/1/1" });
+            const int nr = thorough ? 3000 : 150;
+            for (int k = 0; k < nr; ++k) sstrs.push_back(randomComposite(rng, k % 2 == 0));
+            for (const auto& s : sstrs) {
+                sink.emit("units.ub " + (s.empty() ? std::string("-") : hexs(s)), parseWouldBeUB(s) ? "1" : "0");
+                if (parseWouldBeUB(s)) { sink.count("strconv.skipped_ub"); continue; }
+                for (const auto& u : systems) {
+                    const double x = sampleValue(rng);
+                    std::string a, b;
+                    try { a = fbits(u.to_si(s, x)); } catch (const std::exception&) { a = "err"; }
+                    try { b = fbits(u.from_si(s, x)); } catch (const std::exception&) { b = "err"; }
+                    const std::string pre = sysId(u) + " " + (s.empty() ? std::string("-") : hexs(s)) + " " + fbits(x);
+                    sink.emit("units.tosi_s " + pre, a);
+                    sink.emit("units.fromsi_s " + pre, b);
+                    sink.count(a == "err" ? "strconv.err" : "strconv.ok");
+                }
+            }
+            for (const auto& ub : TRAILING_SLASH) {
+                sink.emit("units.ub " + hexs(ub), g_trailingSlashRefused ? "0" : "1");
+                if (!g_trailingSlashRefused) continue;
+                for (const auto& u : systems) {
+                    std::string a;
+                    try { a = fbits(u.to_si(ub, 1.0)); } catch (const std::exception&) { a = "err"; }
+                    sink.emit("units.tosi_s " + sysId(u) + " " + hexs(ub) + " " + fbits(1.0), a);
+                    sink.count("strconv.trailing_slash");
+                }
+            }
+        }
+        // (9) uda_dim for every UDAControl enumerator
+        for (const auto& u : systems)
+            for (const auto& c : UDA_CONTROLS) {
+                std::string ans;
+                try { ans = dimStr(u.uda_dim(c.second)); } catch (const std::exception&) { ans = "err"; }
+                sink.emit("units.udadim " + sysId(u) + " " + c.first, ans);
+                sink.count(ans == "err" ? "udadim.err" : "udadim.ok");
+            }
+        // (10) FieldProps.hpp unit strings: the table itself, and the conversion getSIValue performs with it
+        {
+            const auto fp = fieldPropsUnits();
+            std::string joined;
+            for (const auto& e : fp) joined += (joined.empty() ? "" : ",") + std::get<0>(e) + "." + std::get<1>(e) + "=" + hexs(std::get<2>(e));
+            sink.emit("units.fpunits", joined);
+            for (const auto& e : fp)
+                for (const auto& u : systems) {
+                    const double x = sampleValue(rng);
+                    std::string a;
+                    try { a = fbits(u.parse(std::get<2>(e)).convertRawToSi(x)); } catch (const std::exception&) { a = "err"; }
+                    sink.emit("units.fpsi " + sysId(u) + " " + std::get<0>(e) + " " + std::get<1>(e) + " " + fbits(x), a);
+                    sink.count("fieldprops");
+                }
+        }
         sink.writeStats(outdir + "/stats.json");
         return 0;
     }
@@ -717,8 +871,18 @@ int main(int argc, char** argv) {
             vh::PropLog inner; std::map<std::string, int> seen; long checked = 0, failed = 0;
             explicit DedupLog(const std::string& p) : inner(p) {}
             void ok() { ++checked; }
-            void fail(const std::string& key, const std::string& detail) { ++failed; if (seen[key]++ < 1) inner.fail(key, detail); }
+            std::string pendingPath; long pending = 0;
+            void fail(const std::string& key, const std::string& detail) {
+                if (PENDING.count(key)) {     // reported finding awaiting a decision: recorded, not failed
+                    ++pending; ++checked;
+                    if (seen[key]++ < 1) { std::ofstream f(pendingPath, std::ios::app); f << "PENDING " << key << " " << detail << "\n"; }
+                    return;
+                }
+                ++failed; if (seen[key]++ < 1) inner.fail(key, detail);
+            }
         } log(outdir + "/prop.txt");
+        log.pendingPath = outdir + "/pending.txt";
+        { std::ofstream f(log.pendingPath); }
         std::map<std::string, long> stats;
         const int nsamples = thorough ? 400 : 60;
         // (a) round trips on the real tables, scalar and vector overloads
@@ -933,6 +1097,111 @@ int main(int argc, char** argv) {
                 }
             }
         }
+        // (g2) a string that ends in its only '/' is refused with std::invalid_argument (no out-of-bounds parts[1])
+        if (!g_trailingSlashRefused) log.fail("parse.trailing_slash", trailingSlashProbe);
+        else {
+            log.ok();
+            for (const auto& s : TRAILING_SLASH) for (const auto& u : systems) {
+                bool threw = false;
+                try { (void) u.to_si(s, 1.0); } catch (const std::invalid_argument&) { threw = true; } catch (const std::exception&) {}
+                if (!threw) log.fail("parse.trailing_slash", u.getName() + " to_si(\"" + s + "\", 1) did not throw std::invalid_argument"); else log.ok();
+                stats["trailing_slash"]++;
+            }
+        }
+        // (h) string overloads invert each other, offset dimensions included
+        {
+            std::vector<std::string> sstrs = compiledDimStrings();
+            sstrs.push_back("Temperature"); sstrs.push_back("/Length");
+            for (const auto& s : sstrs) for (const auto& u : systems) {
+                if (s == "ContextDependent") continue;
+                if (u.getType() == UnitSystem::UnitType::UNIT_TYPE_INPUT && s.find("Ymodule") != std::string::npos) continue;
+                for (int k = 0; k < 4; ++k) {
+                    const double x = sampleValue(rng);
+                    try {
+                        const auto d = u.parse(s);
+                        const double a = u.to_si(s, u.from_si(s, x)), b = u.from_si(s, u.to_si(s, x));
+                        if (!closeRel(a, x, 8, std::fabs(d.getSIOffset())) || !closeRel(b, x, 8, std::fabs(d.getSIOffset() / d.getSIScaling())))
+                            log.fail("string_roundtrip." + s, u.getName() + " x=" + g17(x) + " got " + g17(a) + " / " + g17(b));
+                        else log.ok();
+                    } catch (const std::exception&) { log.fail("string_roundtrip.throw." + s, u.getName()); }
+                    stats["string_roundtrip"]++;
+                }
+            }
+        }
+        // (i) every dimension of every item of the compiled parser: resolves in all five systems, a registered name to
+        //     its table entry, a composite to the product/quotient of its parts (the harness's own reading of the string)
+        {
+            std::set<std::string> done;
+            for (const auto& kv : compiledItemDims()) {
+                std::stringstream ss(kv.second); std::string d;
+                while (std::getline(ss, d, ',')) {
+                    if (!done.insert(d).second) { stats["item_dimension_uses"]++; continue; }
+                    stats["item_dimension_uses"]++;
+                    if (parseWouldBeUB(d)) { log.fail("item_dimension.ub." + d, kv.first); continue; }
+                    for (const auto& u0 : systems) {
+                        if (u0.getType() == UnitSystem::UnitType::UNIT_TYPE_INPUT && d.find("Ymodule") != std::string::npos) continue;
+                        UnitSystem u(u0);
+                        try {
+                            const Dimension got = u.getNewDimension(d);
+                            if (u0.hasDimension(d)) {
+                                if (!(got == u0.getDimension(d))) log.fail("item_dimension.named." + d, u.getName() + " " + kv.first); else log.ok();
+                            } else {
+                                double want = 0;
+                                if (!ownComposite(u0, d, want) || got.getSIOffset() != 0.0 || !closeRel(got.getSIScaling(), want, 16))
+                                    log.fail("item_dimension.composite." + d, u.getName() + " " + kv.first + " factor " + g17(got.getSIScaling()) + " product of parts " + g17(want));
+                                else log.ok();
+                            }
+                        } catch (const std::exception&) { log.fail("item_dimension.unresolved." + d, u.getName() + " " + kv.first); }
+                        stats["item_dimension"]++;
+                    }
+                }
+            }
+        }
+        // (j) FieldProps unit strings (scalar of EQUALS/ADD/…): parse, and mean what the keyword's own item dimension means
+        {
+            const auto items = compiledItemDims();
+            for (const auto& e : fieldPropsUnits()) {
+                const std::string id = std::get<0>(e) + "." + std::get<1>(e);
+                std::string itemDim;
+                for (const auto& kv : items) if (kv.first.rfind(std::get<1>(e) + ".0.", 0) == 0) { itemDim = kv.second; break; }
+                for (int t = 0; t < 4; ++t) {
+                    UnitSystem u(ALL_TYPES[t]);
+                    Dimension du;
+                    try { du = u.parse(std::get<2>(e)); du.getSIScaling(); log.ok(); }
+                    catch (const std::exception&) { log.fail("fieldprops.unit." + id, u.getName() + ": unit string '" + std::get<2>(e) + "' does not parse"); log.fail("fieldprops.unit_vs_keyword." + id, "unit string does not parse"); continue; }
+                    if (itemDim.empty()) { log.fail("fieldprops.no_keyword_item." + id, "no dimensioned parser item"); continue; }
+                    try {
+                        const Dimension dk = u.getNewDimension(itemDim);
+                        if (!closeRel(du.getSIScaling(), dk.getSIScaling(), 16) || du.getSIOffset() != dk.getSIOffset())
+                            log.fail("fieldprops.unit_vs_keyword." + id, u.getName() + ": FieldProps unit '" + std::get<2>(e) + "' = " + g17(du.getSIScaling()) + " but keyword item dimension '" + itemDim + "' = " + g17(dk.getSIScaling()));
+                        else log.ok();
+                    } catch (const std::exception&) { log.fail("fieldprops.unit_vs_keyword." + id, "item dimension '" + itemDim + "' unresolved"); }
+                    stats["fieldprops_units"]++;
+                }
+            }
+        }
+        // (k) uda_dim(control) == the dimension the parser attaches to the control's deck item
+        {
+            Parser parser;
+            for (const auto& c : UDA_ITEM) {
+                UDAControl ctl = UDAControl::WCONPROD_ORAT;
+                for (const auto& p : UDA_CONTROLS) if (p.first == std::get<0>(c)) ctl = p.second;
+                const auto& item = parser.getKeyword(std::get<1>(c)).getRecord(0).get(std::get<2>(c));
+                for (int t = 0; t < 4; ++t) {
+                    UnitSystem u(ALL_TYPES[t]);
+                    double want = 1.0;
+                    if (!item.dimensions().empty() && item.dimensions().front() != "ContextDependent") want = u.getNewDimension(item.dimensions().front()).getSIScaling();
+                    try {
+                        const auto d = u.uda_dim(ctl);
+                        if (!closeRel(d.getSIScaling(), want, 16) || d.getSIOffset() != 0.0)
+                            log.fail("uda_dim." + std::get<0>(c), u.getName() + ": uda_dim factor " + g17(d.getSIScaling()) + " but item " + std::get<1>(c) + "." + std::get<2>(c) + " converts with " + g17(want));
+                        else log.ok();
+                    } catch (const std::exception&) { log.fail("uda_dim.throw." + std::get<0>(c), u.getName()); }
+                    stats["uda_dim"]++;
+                }
+            }
+        }
+        stats["pending_findings"] = log.pending;
         std::ofstream f(outdir + "/prop_stats.json");
         f << "{\n  \"checked\": " << log.checked << ",\n  \"failed\": " << log.failed;
         for (auto& kv : stats) f << ",\n  \"" << kv.first << "\": " << kv.second;
